@@ -172,7 +172,9 @@ pub trait WalletOutputBatch<K> where K: Keychain {
 
     fn get(&self, id: &Identifier, mmr_index: &Option<u64>) -> (r: Result<OutputData, Error>)
         ensures r matches Ok(o) ==> self.view().outputs.dom().contains((*id, *mmr_index)) && o == self.view().outputs[(*id, *mmr_index)],
-            !self.view().outputs.dom().contains((*id, *mmr_index)) ==> r is Err;
+            !self.view().outputs.dom().contains((*id, *mmr_index)) ==> r is Err,
+            // A-read: reading a record that is present succeeds (read I/O errors are not modelled)
+            self.view().outputs.dom().contains((*id, *mmr_index)) ==> r is Ok;
 
     fn iter(&self) -> (r: VIter<OutputData>)
         ensures enumerates_outputs(r@, self.view().outputs), r@ == seq_of_outputs(self.view().outputs);
